@@ -112,35 +112,79 @@ def rule_alpha(E, R):
     if len(accs) != 1:
         return R.cannot(rule, fn, "could not identify the name accumulator (%s)" % sorted(accs))
     acc = accs.pop()
-    for m in exprs(body, "Match"):
-        for a in m["arms"]:
-            pushes = [c for c in exprs(a["body"], "MethodCall", into_closures=False) if c["m"] == "push" and local_name(c["recv"]) == acc]
-            if not pushes or any(True for mm in exprs(a["body"], "Match")):
-                continue
-            n_arms += 1
-            if "guard" in a:
-                preds = [last_seg(norm(c.get("callee", ""))) for c in exprs(a["guard"], ("Call", "MethodCall"))]
-                known = {"is_ascii_lowercase": set("abcdefghijklmnopqrstuvwxyz"), "is_ascii_digit": set("0123456789")}
-                unknown = [p_ for p_ in preds if p_ not in known]
-                if unknown or not preds:
-                    R.violation(rule, fn, "list-name characters admitted by predicate %s" % (unknown or preds),
-                                "the documented alphabet is a-z 0-9 _ . ; a predicate such as char::is_lowercase / is_alphanumeric also "
-                                "admits non-ASCII letters", a["sp"])
-                    ok_extract = False
-                    continue
-                for p_ in preds:
-                    got |= known[p_]
-                cs = _chars_of_any(a["pat"])
-                if cs:
-                    got |= cs
-            else:
-                cs = _chars_of_any(a["pat"])
-                if cs is None:
-                    ok_extract = False
-                    R.violation(rule, fn, "list-name characters admitted by an open pattern", "an arm that pushes the character does not "
-                                "restrict it to a set of literals/ranges", a["sp"])
+    # the characters that reach `acc.push(c)`: read from the path condition of each push - char patterns the pushed character
+    # was matched against (match arm, `if let`, `matches!`) and ASCII class predicates tested on it
+    Sp = sem.Sem(E, h)
+    known = {"is_ascii_lowercase": set("abcdefghijklmnopqrstuvwxyz"), "is_ascii_digit": set("0123456789")}
+    for x in Sp.sites():
+        c_ = x.node
+        if not (c_.get("k") == "MethodCall" and c_["m"] == "push" and c_.get("args") and sem.root_local(Sp, c_["recv"], x.frame) is not None and
+                sem.root_local(Sp, c_["recv"], x.frame).name == acc) or x.in_closure:
+            continue
+        n_arms += 1
+        pushed = Sp.resolve(c_["args"][0], x.frame)
+        pb = pushed.bind or Sp.lookup(pushed.node, pushed.frame)
+        sets = []
+        lits_, ors_ = sem.literals(x.pc)
+        bad_pred = []
+        for a_, pol in lits_:
+            if a_.kind == "is" and pol and a_.pats and len(a_.scruts) == 1 and norm(a_.scruts[0].node.get("ty", "")).lstrip("&") == "char":
+                sb = Sp.resolve(a_.scruts[0].node, a_.scruts[0].frame)
+                if (sb.bind or Sp.lookup(sb.node, sb.frame)) is pb or Sp.same(a_.scruts[0].node, a_.scruts[0].frame, c_["args"][0], x.frame):
+                    cs_all = set()
+                    okp = True
+                    for p_ in a_.pats:
+                        cs = _chars_of_any(p_)
+                        if cs is None:
+                            okp = False
+                        else:
+                            cs_all |= cs
+                    if okp:
+                        sets.append(cs_all)
+            if a_.kind == "call" and pol and a_.node is not None:
+                nm_ = last_seg(norm(sem.peel(a_.node).get("callee", "")))
+                if norm(str(sem.peel(a_.node).get("recv", {}).get("ty", ""))).lstrip("&") == "char" or nm_.startswith("is_"):
+                    if nm_ in known:
+                        sets.append(known[nm_])
+                    elif nm_.startswith("is_") and "char" in norm(sem.peel(a_.node).get("callee", "")):
+                        bad_pred.append(nm_)
+        # a disjunction of class tests / patterns (`c.is_ascii_lowercase() || c.is_ascii_digit() || matches!(c, '_' | '.')`)
+        for disj in ors_:
+            u = set()
+            okd = True
+            for g_, gp_ in disj:
+                ls2, os2 = sem.literals(((g_, gp_),))
+                if os2 or len(ls2) != 1 or not ls2[0][1]:
+                    okd = False
+                    break
+                a2 = ls2[0][0]
+                if a2.kind == "is" and a2.pats and all(_chars_of_any(p_) is not None for p_ in a2.pats):
+                    for p_ in a2.pats:
+                        u |= _chars_of_any(p_)
+                elif a2.kind == "call" and last_seg(norm(sem.peel(a2.node).get("callee", ""))) in known:
+                    u |= known[last_seg(norm(sem.peel(a2.node).get("callee", "")))]
+                elif a2.kind == "call" and last_seg(norm(sem.peel(a2.node).get("callee", ""))).startswith("is_"):
+                    bad_pred.append(last_seg(norm(sem.peel(a2.node).get("callee", ""))))
+                    okd = False
                 else:
-                    got |= cs
+                    okd = False
+            if okd and u:
+                sets.append(u)
+        if bad_pred:
+            R.violation(rule, fn, "list-name characters admitted by predicate %s" % sorted(set(bad_pred)),
+                        "the documented alphabet is a-z 0-9 _ . ; a predicate such as char::is_lowercase / is_alphanumeric also "
+                        "admits non-ASCII letters", c_["sp"])
+            ok_extract = False
+            continue
+        if not sets:
+            ok_extract = False
+            R.violation(rule, fn, "list-name characters admitted by an open pattern", "a site that pushes the character does not "
+                        "restrict it to a set of literals/ranges", c_["sp"])
+            continue
+        cs = sets[0]
+        for s_ in sets[1:]:
+            cs = cs & s_
+        got |= cs
     if n_arms == 0:
         R.cannot(rule, fn, "could not extract the accepted character set")
     elif ok_extract:
